@@ -1,18 +1,7 @@
-import FlatModel.Model.Basic
-import FlatModel.Model.Index
-import FlatModel.Model.Region
-import FlatModel.Model.Wrappers
-import FlatModel.Model.Columns
-import FlatModel.Model.FlatStack
-import FlatModel.Proofs.Index
-import FlatModel.Proofs.Region
-import FlatModel.Proofs.FanOut
-import FlatModel.Proofs.Collapse
-import FlatModel.Proofs.Slice
-import FlatModel.Proofs.Consec
-import FlatModel.Proofs.Columns
-import FlatModel.Props.Catalogue
+import FlatModel.Generated.Catalogue
+import FlatModel.Generated.Covered
 import FlatModel.Props.C01
 import FlatModel.Props.C03
 import FlatModel.Props.C05
+import FlatModel.Props.C11
 import FlatModel.Props.C19
